@@ -12,7 +12,10 @@ Three layers of statement:
   (`Model/RegistrySpec.lean`, a pure function of the received lines): `registry_refines_spec` per
   operation — every line, environment, write-fault schedule, buffer content — and
   `history_refines_spec` by induction; from it `registry_independent_of_faults_and_buffers` and
-  `value_is_last_set` (the stored value is the payload of the last set, over any history).
+  `value_is_last_set` (the stored value is the payload of the last set, over any history), the
+  analogues for the node attributes (`battery_is_last_report`, `sketch_name_is_last_report`,
+  `sketch_version_is_last_report`, `heartbeat_is_last_report`) and `absent_if_never_set` /
+  `absent_if_not_set_since_presentation`.
 -/
 import AioMySensors.Lemmas.Faithful
 import AioMySensors.Properties.C11
@@ -642,6 +645,526 @@ example : storedValue (stateAfter {} (exPre ++ .recv {} "7;4;1;0;0;21.5\n".toLis
     rcases hop with rfl | rfl
     · trivial
     · exact notFrom_example
+end
+
+/-! ### Node attributes: the last accepted report; absent if never set -/
+
+/-- An operation none of whose decoded messages satisfies `D` (a send, a rejected line, or a line that
+decodes — under the protocol active when it arrives — to a message outside `D`). -/
+def QuietFor (D : Msg → Prop) (s : SpecSt) : Op → Prop
+  | .recv _ line _ => ∀ m', decode s.proto line = some m' → ¬ D m'
+  | .send _ _ _ => True
+
+/-- No operation of the history delivers a message in `D`; each line is judged under the protocol
+active at that point of the history. -/
+def Quiet (D : Msg → Prop) : SpecSt → List Op → Prop
+  | _, [] => True
+  | s, op :: ops => QuietFor D s op ∧ Quiet D (specStep s op) ops
+
+theorem specRun_inv (D : Msg → Prop) (P : SpecSt → Prop) (hP : ∀ s m, P s → ¬ D m → P (Spec.message s m))
+    (s : SpecSt) (ops : List Op) (h : P s) (hq : Quiet D s ops) : P (specRun s ops) := by
+  induction ops generalizing s with
+  | nil => exact h
+  | cons op ops ih =>
+    refine ih _ ?_ hq.2
+    cases op with
+    | send _ _ _ => exact h
+    | recv env line faults =>
+      simp only [specStep]
+      cases hd : decode s.proto line with
+      | none => exact h
+      | some m' => exact hP s m' h (hq.1 m' hd)
+
+theorem quiet_of_notFrom (D : Msg → Prop) (n : Int) (hD : ∀ m, D m → m.node = n) (ops : List Op)
+    (h : ∀ op ∈ ops, NotFrom n op) (s : SpecSt) : Quiet D s ops := by
+  induction ops generalizing s with
+  | nil => trivial
+  | cons op ops ih =>
+    refine ⟨?_, ih (fun o ho => h o (List.mem_cons_of_mem _ ho)) _⟩
+    have := h op (List.mem_cons_self)
+    cases op with
+    | send _ _ _ => trivial
+    | recv env line faults => exact fun m' hm' hdist => this s.proto m' hm' (hD m' hdist)
+
+/-- An attribute of the record of node `n` (absent when the node is not registered). -/
+def nodeAttr (nodes : PDict Int Node) (n : Int) (attr : Node → α) : Option α := (nodes.get? n).map attr
+
+/-- The messages that may change the attribute reported by internal type `t` of node `n`: an internal
+message of that type from `n`, or a presentation of node `n` (which recreates the record). -/
+def AttrDisturbs (n t : Int) (m : Msg) : Prop :=
+  m.node = n ∧ ((m.cmd = Gen.cmdInternal ∧ m.type = t) ∨ (m.cmd = Gen.cmdPresentation ∧ m.child = Gen.systemChildId))
+
+/-- `attr` is the attribute reported by internal type `t`: every other update of a record that the
+specification performs leaves it as it is. -/
+structure AttrOf (attr : Node → α) (t : Int) : Prop where
+  children : ∀ (node : Node) c, attr { node with children := c } = attr node
+  battery : t ≠ Spec.iBatteryLevel → ∀ (node : Node) l, attr { node with battery := l } = attr node
+  sketchName : t ≠ Spec.iSketchName → ∀ (node : Node) p, attr { node with sketchName := p } = attr node
+  sketchVersion : t ≠ Spec.iSketchVersion → ∀ (node : Node) p, attr { node with sketchVersion := p } = attr node
+  heartbeat : t ≠ Spec.iHeartbeatResponse → ∀ (node : Node) b, attr { node with heartbeat := b } = attr node
+  sleeping : ∀ (node : Node) b, attr { node with sleeping := b } = attr node
+
+theorem nodeAttr_set_ne (nodes : PDict Int Node) (id : Int) (x : Node) (n : Int) (attr : Node → α) (h : n ≠ id) :
+    nodeAttr (nodes.set id x) n attr = nodeAttr nodes n attr := by
+  unfold nodeAttr; rw [PDict.get?_set_ne _ _ h]
+
+theorem nodeAttr_updNode (s : SpecSt) (id : Int) (f : Node → Option Node) (n : Int) (attr : Node → α)
+    (hf : ∀ node node', f node = some node' → id = n → attr node' = attr node) :
+    nodeAttr (Spec.updNode s id f).nodes n attr = nodeAttr s.nodes n attr := by
+  cases hn : s.nodes.get? id with
+  | none => rw [updNode_none _ _ _ hn]
+  | some node =>
+    rw [updNode_some _ _ _ node hn]
+    cases hfn : f node with
+    | none => rfl
+    | some node' =>
+      simp only []
+      by_cases hk : n = id
+      · unfold nodeAttr
+        rw [hk, PDict.get?_set_self, hn]
+        exact congrArg some (hf node node' hfn hk.symm)
+      · exact nodeAttr_set_ne _ _ _ _ _ hk
+
+/-- In the specification: a message that does not disturb the attribute leaves it in place. -/
+theorem message_keeps_attr {attr : Node → α} {t : Int} (ha : AttrOf attr t) (s : SpecSt) (m : Msg) (n : Int) (a : α)
+    (h : nodeAttr s.nodes n attr = some a) (hd : ¬ AttrDisturbs n t m) :
+    nodeAttr (Spec.message s m).nodes n attr = some a := by
+  rw [← h]
+  unfold Spec.message
+  split
+  · next h0 =>
+    unfold Spec.presentation
+    split
+    · next hc =>
+      have hne : n ≠ m.node := fun e => hd ⟨e.symm, Or.inr ⟨h0, hc⟩⟩
+      simp only []
+      split
+      · rw [versionReport_nodes]; exact nodeAttr_set_ne _ _ _ _ _ hne
+      · exact nodeAttr_set_ne _ _ _ _ _ hne
+    · refine nodeAttr_updNode _ _ _ _ _ fun node node' hf _ => ?_
+      simp only [Option.some.injEq] at hf; subst hf
+      exact ha.children _ _
+  · split
+    · unfold Spec.setReport
+      refine nodeAttr_updNode _ _ _ _ _ fun node node' hf _ => ?_
+      simp only [Option.map_eq_some_iff] at hf; obtain ⟨_, _, rfl⟩ := hf
+      exact ha.children _ _
+    · split
+      · next h3 =>
+        unfold Spec.internal
+        split
+        · next ht =>
+          refine nodeAttr_updNode _ _ _ _ _ fun node node' hf hid => ?_
+          simp only [Option.map_eq_some_iff] at hf; obtain ⟨_, _, rfl⟩ := hf
+          exact ha.battery (fun e => hd ⟨hid, Or.inl ⟨h3, ht.trans e.symm⟩⟩) _ _
+        · split
+          · next ht =>
+            refine nodeAttr_updNode _ _ _ _ _ fun node node' hf hid => ?_
+            simp only [Option.some.injEq] at hf; subst hf
+            exact ha.sketchName (fun e => hd ⟨hid, Or.inl ⟨h3, ht.trans e.symm⟩⟩) _ _
+          · split
+            · next ht =>
+              refine nodeAttr_updNode _ _ _ _ _ fun node node' hf hid => ?_
+              simp only [Option.some.injEq] at hf; subst hf
+              exact ha.sketchVersion (fun e => hd ⟨hid, Or.inl ⟨h3, ht.trans e.symm⟩⟩) _ _
+            · split
+              · next ht =>
+                refine nodeAttr_updNode _ _ _ _ _ fun node node' hf hid => ?_
+                simp only [Option.map_eq_some_iff] at hf; obtain ⟨b, _, rfl⟩ := hf
+                have hb := ha.heartbeat (fun e => hd ⟨hid, Or.inl ⟨h3, ht.1.trans e.symm⟩⟩)
+                split
+                · exact hb _ _
+                · exact (hb { node with sleeping := true } b).trans (ha.sleeping node true)
+              · split
+                · refine nodeAttr_updNode _ _ _ _ _ fun node node' hf hid => ?_
+                  simp only [Option.some.injEq] at hf; subst hf
+                  exact ha.sleeping _ _
+                · split
+                  · split
+                    · refine nodeAttr_set_ne _ _ _ _ _ fun e => ?_
+                      have hf := C11.nextId_fresh s.nodes
+                      rw [← e] at hf
+                      unfold nodeAttr at h
+                      simp only [PDict.has] at hf
+                      cases hg : s.nodes.get? n with
+                      | none => rw [hg] at h; simp at h
+                      | some x => rw [hg] at hf; simp at hf
+                    · rfl
+                  · split
+                    · exact congrArg (nodeAttr · n attr) (versionReport_nodes _ _)
+                    · rfl
+      · rfl
+
+theorem stateAfter_nil (st : St) : stateAfter st [] = st := rfl
+
+/-- The state after one more received line that decodes, in the specification's terms. -/
+theorem abs_after_recv (st : St) (pre : List Op) (env : Env) (line : Str) (faults : List Fault) (m : Msg)
+    (hd : decode (stateAfter st pre).proto line = some m) :
+    (stateAfter st (pre ++ [.recv env line faults])).abs = Spec.message (stateAfter st pre).abs m := by
+  rw [stateAfter_append, stateAfter_cons, stateAfter_nil, registry_refines_spec]
+  show (match decode (stateAfter st pre).proto line with
+    | some m => Spec.message (stateAfter st pre).abs m | none => (stateAfter st pre).abs) = _
+  rw [hd]
+
+/-- The generic form: an attribute a received message leaves in the sender's record is still there
+after any continuation that does not disturb it. -/
+theorem attr_kept_after {attr : Node → α} {t : Int} (ha : AttrOf attr t) (st : St) (pre post : List Op) (env : Env)
+    (line : Str) (faults : List Fault) (m : Msg) (a : α)
+    (hd : decode (stateAfter st pre).proto line = some m)
+    (hstored : nodeAttr (Spec.message (stateAfter st pre).abs m).nodes m.node attr = some a)
+    (hpost : Quiet (AttrDisturbs m.node t) (stateAfter st (pre ++ [.recv env line faults])).abs post) :
+    nodeAttr (stateAfter st (pre ++ .recv env line faults :: post)).nodes m.node attr = some a := by
+  have e : pre ++ Op.recv env line faults :: post = (pre ++ [Op.recv env line faults]) ++ post := by simp
+  rw [e, stateAfter_append]
+  have hmid := abs_after_recv st pre env line faults m hd
+  generalize stateAfter st (pre ++ [Op.recv env line faults]) = mid at hpost hmid ⊢
+  have hmidv : nodeAttr mid.abs.nodes m.node attr = some a := by rw [hmid]; exact hstored
+  have := specRun_inv (AttrDisturbs m.node t) (fun s => nodeAttr s.nodes m.node attr = some a)
+    (fun s m' h hd' => message_keeps_attr ha s m' m.node a h hd') mid.abs post hmidv hpost
+  rw [← history_refines_spec] at this
+  exact this
+
+theorem attrOf_battery : AttrOf Node.battery Spec.iBatteryLevel :=
+  ⟨fun _ _ => rfl, fun h => absurd rfl h, fun _ _ _ => rfl, fun _ _ _ => rfl, fun _ _ _ => rfl, fun _ _ => rfl⟩
+theorem attrOf_sketchName : AttrOf Node.sketchName Spec.iSketchName :=
+  ⟨fun _ _ => rfl, fun _ _ _ => rfl, fun h => absurd rfl h, fun _ _ _ => rfl, fun _ _ _ => rfl, fun _ _ => rfl⟩
+theorem attrOf_sketchVersion : AttrOf Node.sketchVersion Spec.iSketchVersion :=
+  ⟨fun _ _ => rfl, fun _ _ _ => rfl, fun _ _ _ => rfl, fun h => absurd rfl h, fun _ _ _ => rfl, fun _ _ => rfl⟩
+theorem attrOf_heartbeat : AttrOf Node.heartbeat Spec.iHeartbeatResponse :=
+  ⟨fun _ _ => rfl, fun _ _ _ => rfl, fun _ _ _ => rfl, fun _ _ _ => rfl, fun h => absurd rfl h, fun _ _ => rfl⟩
+
+theorem message_internal (s : SpecSt) (m : Msg) (h : m.cmd = Gen.cmdInternal) : Spec.message s m = Spec.internal s m := by
+  have h0 : ¬ m.cmd = Gen.cmdPresentation := by rw [h]; decide
+  have h1 : ¬ m.cmd = Gen.cmdSet := by rw [h]; decide
+  unfold Spec.message
+  rw [if_neg h0, if_neg h1, if_pos h]
+
+/-- In the specification: an accepted battery report from a registered node stores the rounded level. -/
+theorem message_stores_battery (s : SpecSt) (m : Msg) (hcmd : m.cmd = Gen.cmdInternal) (ht : m.type = Spec.iBatteryLevel)
+    (node : Node) (hn : s.nodes.get? m.node = some node) (level : Int) (hp : pyRoundFloat m.payload = .ok level)
+    (hr : Gen.minBattery ≤ level ∧ level ≤ Gen.maxBattery) :
+    nodeAttr (Spec.message s m).nodes m.node Node.battery = some level := by
+  rw [message_internal s m hcmd]
+  unfold Spec.internal
+  rw [if_pos ht, updNode_some _ _ _ node hn]
+  simp [Spec.batteryLevel?, hp, hr, nodeAttr, PDict.get?_set_self]
+
+theorem message_stores_sketch_name (s : SpecSt) (m : Msg) (hcmd : m.cmd = Gen.cmdInternal) (ht : m.type = Spec.iSketchName)
+    (node : Node) (hn : s.nodes.get? m.node = some node) :
+    nodeAttr (Spec.message s m).nodes m.node Node.sketchName = some m.payload := by
+  rw [message_internal s m hcmd]
+  unfold Spec.internal
+  rw [if_neg (by rw [ht]; decide), if_pos ht, updNode_some _ _ _ node hn]
+  simp [nodeAttr, PDict.get?_set_self]
+
+theorem message_stores_sketch_version (s : SpecSt) (m : Msg) (hcmd : m.cmd = Gen.cmdInternal) (ht : m.type = Spec.iSketchVersion)
+    (node : Node) (hn : s.nodes.get? m.node = some node) :
+    nodeAttr (Spec.message s m).nodes m.node Node.sketchVersion = some m.payload := by
+  rw [message_internal s m hcmd]
+  unfold Spec.internal
+  rw [if_neg (by rw [ht]; decide), if_neg (by rw [ht]; decide), if_pos ht, updNode_some _ _ _ node hn]
+  simp [nodeAttr, PDict.get?_set_self]
+
+theorem message_stores_heartbeat (s : SpecSt) (m : Msg) (hcmd : m.cmd = Gen.cmdInternal) (ht : m.type = Spec.iHeartbeatResponse)
+    (hv : Ver.v20 ≤ s.proto) (node : Node) (hn : s.nodes.get? m.node = some node) (beat : Int)
+    (hp : pyInt? m.payload = some beat) :
+    nodeAttr (Spec.message s m).nodes m.node Node.heartbeat = some beat := by
+  rw [message_internal s m hcmd]
+  unfold Spec.internal
+  rw [if_neg (by rw [ht]; decide), if_neg (by rw [ht]; decide), if_neg (by rw [ht]; decide), if_pos ⟨ht, hv⟩,
+    updNode_some _ _ _ node hn]
+  simp only [hp, Option.map_some, nodeAttr, PDict.get?_set_self]
+  split <;> rfl
+
+/-- **The battery level is that of the last accepted battery report.**  Take any history
+`pre ++ [line] ++ post` from any state, with any environments and write-fault schedules, where `line`
+decodes (under the protocol active after `pre`) to a battery report `m` from a node registered at that
+point whose payload is accepted — `round(float(payload)) = level` within the generated bounds 0..100 —
+and no later operation delivers, from the same node, a battery report or a presentation of the node
+(each line judged under the protocol active when it arrives; sends and all other traffic are
+allowed).  Then the node's `battery` at the end is `level`. -/
+theorem battery_is_last_report (st : St) (pre post : List Op) (env : Env) (line : Str) (faults : List Fault) (m : Msg)
+    (level : Int) (hd : decode (stateAfter st pre).proto line = some m)
+    (hcmd : m.cmd = Gen.cmdInternal) (ht : m.type = Spec.iBatteryLevel)
+    (hknown : ∃ node, (stateAfter st pre).nodes.get? m.node = some node)
+    (hp : pyRoundFloat m.payload = .ok level) (hr : Gen.minBattery ≤ level ∧ level ≤ Gen.maxBattery)
+    (hpost : Quiet (AttrDisturbs m.node Spec.iBatteryLevel) (stateAfter st (pre ++ [.recv env line faults])).abs post) :
+    nodeAttr (stateAfter st (pre ++ .recv env line faults :: post)).nodes m.node Node.battery = some level := by
+  obtain ⟨node, hn⟩ := hknown
+  exact attr_kept_after attrOf_battery st pre post env line faults m level hd
+    (message_stores_battery _ m hcmd ht node hn level hp hr) hpost
+
+/-- **The sketch name is the payload of the last sketch-name report** (same shape; every payload is accepted). -/
+theorem sketch_name_is_last_report (st : St) (pre post : List Op) (env : Env) (line : Str) (faults : List Fault) (m : Msg)
+    (hd : decode (stateAfter st pre).proto line = some m)
+    (hcmd : m.cmd = Gen.cmdInternal) (ht : m.type = Spec.iSketchName)
+    (hknown : ∃ node, (stateAfter st pre).nodes.get? m.node = some node)
+    (hpost : Quiet (AttrDisturbs m.node Spec.iSketchName) (stateAfter st (pre ++ [.recv env line faults])).abs post) :
+    nodeAttr (stateAfter st (pre ++ .recv env line faults :: post)).nodes m.node Node.sketchName = some m.payload := by
+  obtain ⟨node, hn⟩ := hknown
+  exact attr_kept_after attrOf_sketchName st pre post env line faults m m.payload hd
+    (message_stores_sketch_name _ m hcmd ht node hn) hpost
+
+/-- **The sketch version is the payload of the last sketch-version report.** -/
+theorem sketch_version_is_last_report (st : St) (pre post : List Op) (env : Env) (line : Str) (faults : List Fault) (m : Msg)
+    (hd : decode (stateAfter st pre).proto line = some m)
+    (hcmd : m.cmd = Gen.cmdInternal) (ht : m.type = Spec.iSketchVersion)
+    (hknown : ∃ node, (stateAfter st pre).nodes.get? m.node = some node)
+    (hpost : Quiet (AttrDisturbs m.node Spec.iSketchVersion) (stateAfter st (pre ++ [.recv env line faults])).abs post) :
+    nodeAttr (stateAfter st (pre ++ .recv env line faults :: post)).nodes m.node Node.sketchVersion = some m.payload := by
+  obtain ⟨node, hn⟩ := hknown
+  exact attr_kept_after attrOf_sketchVersion st pre post env line faults m m.payload hd
+    (message_stores_sketch_version _ m hcmd ht node hn) hpost
+
+/-- **The heartbeat is that of the last accepted heartbeat response.**  The report exists from 2.0 on
+(`hv`: the protocol active when the line arrives), and the payload must be an integer (`int(payload)`);
+in 2.0 / 2.1 the same report also sets `sleeping`, which is not part of this statement. -/
+theorem heartbeat_is_last_report (st : St) (pre post : List Op) (env : Env) (line : Str) (faults : List Fault) (m : Msg)
+    (beat : Int) (hd : decode (stateAfter st pre).proto line = some m)
+    (hcmd : m.cmd = Gen.cmdInternal) (ht : m.type = Spec.iHeartbeatResponse) (hv : Ver.v20 ≤ (stateAfter st pre).proto)
+    (hknown : ∃ node, (stateAfter st pre).nodes.get? m.node = some node)
+    (hp : pyInt? m.payload = some beat)
+    (hpost : Quiet (AttrDisturbs m.node Spec.iHeartbeatResponse) (stateAfter st (pre ++ [.recv env line faults])).abs post) :
+    nodeAttr (stateAfter st (pre ++ .recv env line faults :: post)).nodes m.node Node.heartbeat = some beat := by
+  obtain ⟨node, hn⟩ := hknown
+  exact attr_kept_after attrOf_heartbeat st pre post env line faults m beat hd
+    (message_stores_heartbeat _ m hcmd ht hv node hn beat hp) hpost
+
+/-! ### Absent if never set -/
+
+/-- A set message for the key `k` = (node, child, value type). -/
+def SetsKey (k : Key) (m : Msg) : Prop := m.cmd = Gen.cmdSet ∧ m.key = k
+
+theorem storedValue_set_blank (nodes : PDict Int Node) (id : Int) (x : Node) (k : Key) (hx : x.children = [])
+    (h : storedValue nodes k = none) : storedValue (nodes.set id x) k = none := by
+  by_cases hk : k.1 = id
+  · unfold storedValue nodeValue
+    rw [hk, PDict.get?_set_self]
+    simp only [Option.bind_some, hx]; rfl
+  · rw [storedValue_set_ne _ _ _ _ hk]; exact h
+
+theorem storedValue_updNode_absent (s : SpecSt) (id : Int) (f : Node → Option Node) (k : Key)
+    (h : storedValue s.nodes k = none)
+    (hf : ∀ node node', f node = some node' → id = k.1 → nodeValue node k.2.1 k.2.2 = none →
+      nodeValue node' k.2.1 k.2.2 = none) :
+    storedValue (Spec.updNode s id f).nodes k = none := by
+  cases hn : s.nodes.get? id with
+  | none => rw [updNode_none _ _ _ hn]; exact h
+  | some node =>
+    rw [updNode_some _ _ _ node hn]
+    cases hfn : f node with
+    | none => exact h
+    | some node' =>
+      simp only []
+      by_cases hk : k.1 = id
+      · unfold storedValue at h ⊢
+        rw [hk, PDict.get?_set_self]
+        rw [hk, hn] at h
+        exact hf node node' hfn hk.symm h
+      · rw [storedValue_set_ne _ _ _ _ hk]; exact h
+
+/-- In the specification: no message other than a set for the key makes a value appear under it. -/
+theorem message_keeps_absent (s : SpecSt) (m : Msg) (k : Key) (h : storedValue s.nodes k = none)
+    (hd : ¬ SetsKey k m) : storedValue (Spec.message s m).nodes k = none := by
+  unfold Spec.message
+  split
+  · unfold Spec.presentation
+    split
+    · simp only []
+      split
+      · rw [versionReport_nodes]; exact storedValue_set_blank _ _ _ _ rfl h
+      · exact storedValue_set_blank _ _ _ _ rfl h
+    · refine storedValue_updNode_absent _ _ _ _ h fun node node' hf _ hv => ?_
+      simp only [Option.some.injEq] at hf; subst hf
+      simp only [nodeValue] at hv ⊢
+      by_cases hck : k.2.1 = m.child
+      · rw [hck, PDict.get?_set_self]; rfl
+      · rw [PDict.get?_set_ne _ _ hck]; exact hv
+  · split
+    · next _ h1 =>
+      unfold Spec.setReport
+      refine storedValue_updNode_absent _ _ _ _ h fun node node' hf hid hv => ?_
+      simp only [Option.map_eq_some_iff] at hf; obtain ⟨child, hc, rfl⟩ := hf
+      simp only [nodeValue] at hv ⊢
+      by_cases hck : k.2.1 = m.child
+      · rw [hck, hc] at hv
+        simp only [Option.bind_some] at hv
+        have hne : k.2.2 ≠ m.type := fun e => hd ⟨h1, by
+          obtain ⟨k1, k2, k3⟩ := k
+          simp only at hid hck e
+          simp [Msg.key, hid, hck, e]⟩
+        rw [hck, PDict.get?_set_self]
+        simp only [Option.bind_some]
+        rw [PDict.get?_set_ne _ _ hne]; exact hv
+      · rw [PDict.get?_set_ne _ _ hck]; exact hv
+    · split
+      · unfold Spec.internal
+        repeat' split
+        all_goals first
+          | exact h
+          | (rw [versionReport_nodes]; exact h)
+          | exact storedValue_set_blank _ _ _ _ rfl h
+          | (refine storedValue_updNode_absent _ _ _ _ h fun node node' hf _ hv => ?_
+             first
+             | (simp only [Option.some.injEq] at hf; subst hf; exact hv)
+             | (simp only [Option.map_eq_some_iff] at hf; obtain ⟨_, _, rfl⟩ := hf; first | exact hv | (split <;> exact hv)))
+      · exact h
+
+/-- **Absent if never set.**  From any state in which nothing is stored under the key
+`k` = (node, child, value type) — in particular the empty gateway — and over any history (any lines,
+environments, write faults, sends) none of whose received lines decodes, under the protocol active
+when it arrives, to a set message for exactly that key, nothing is stored under `k` at the end:
+presentations, reports, other sets, id requests and sends never make a value appear. -/
+theorem absent_if_never_set (st : St) (ops : List Op) (k : Key) (h0 : storedValue st.nodes k = none)
+    (hq : Quiet (SetsKey k) st.abs ops) : storedValue (stateAfter st ops).nodes k = none := by
+  have := specRun_inv (SetsKey k) (fun s => storedValue s.nodes k = none)
+    (fun s m h hd => message_keeps_absent s m k h hd) st.abs ops h0 hq
+  rw [← history_refines_spec] at this
+  exact this
+
+/-- A received line that is no set for `k`, whichever protocol decodes it. -/
+def NoSetFor (k : Key) : Op → Prop
+  | .recv _ line _ => ∀ v m', decode v line = some m' → ¬ SetsKey k m'
+  | .send _ _ _ => True
+
+theorem quiet_of_noSetFor (k : Key) (ops : List Op) (h : ∀ op ∈ ops, NoSetFor k op) (s : SpecSt) :
+    Quiet (SetsKey k) s ops := by
+  induction ops generalizing s with
+  | nil => trivial
+  | cons op ops ih =>
+    refine ⟨?_, ih (fun o ho => h o (List.mem_cons_of_mem _ ho)) _⟩
+    have := h op (List.mem_cons_self)
+    cases op with
+    | send _ _ _ => trivial
+    | recv env line faults => exact fun m' hm' => this s.proto m' hm'
+
+/-- From the empty gateway: if no received line of the history decodes (in any protocol version) to a
+set message with that node, child and value type, no value is stored for them. -/
+theorem absent_if_never_set_from_empty (ops : List Op) (k : Key) (h : ∀ op ∈ ops, NoSetFor k op) :
+    storedValue (stateAfter {} ops).nodes k = none :=
+  absent_if_never_set {} ops k rfl (quiet_of_noSetFor k ops h _)
+
+/-- In the specification: a presentation of the node or of the child leaves no value under the key. -/
+theorem presentation_clears_value (s : SpecSt) (m : Msg) (k : Key) (hcmd : m.cmd = Gen.cmdPresentation)
+    (hn : m.node = k.1) (hc : m.child = Gen.systemChildId ∨ m.child = k.2.1) :
+    storedValue (Spec.message s m).nodes k = none := by
+  unfold Spec.message
+  rw [if_pos hcmd]
+  unfold Spec.presentation
+  split
+  · have hb : ∀ nodes : PDict Int Node, storedValue (nodes.set m.node { ntype := m.type, pv := m.payload }) k = none := by
+      intro nodes; unfold storedValue nodeValue; rw [← hn, PDict.get?_set_self]; rfl
+    simp only []
+    split
+    · rw [versionReport_nodes]; exact hb _
+    · exact hb _
+  · next hsys =>
+    have hck : m.child = k.2.1 := hc.resolve_left hsys
+    cases hg : s.nodes.get? m.node with
+    | none =>
+      rw [updNode_none _ _ _ hg]
+      unfold storedValue; rw [← hn, hg]; rfl
+    | some node =>
+      rw [updNode_some _ _ _ node hg]
+      simp only [storedValue, nodeValue]
+      rw [← hn, PDict.get?_set_self, ← hck]
+      simp only [Option.bind_some]
+      rw [PDict.get?_set_self]; rfl
+
+/-- **Absent if not set since the last presentation.**  After `pre ++ [line] ++ post`, where `line`
+decodes to a presentation of node `k.1` or of its child `k.2.1` and no later line is a set for `k`,
+nothing is stored under `k` — whatever was stored before. -/
+theorem absent_if_not_set_since_presentation (st : St) (pre post : List Op) (env : Env) (line : Str)
+    (faults : List Fault) (m : Msg) (k : Key)
+    (hd : decode (stateAfter st pre).proto line = some m) (hcmd : m.cmd = Gen.cmdPresentation)
+    (hn : m.node = k.1) (hc : m.child = Gen.systemChildId ∨ m.child = k.2.1)
+    (hpost : Quiet (SetsKey k) (stateAfter st (pre ++ [.recv env line faults])).abs post) :
+    storedValue (stateAfter st (pre ++ .recv env line faults :: post)).nodes k = none := by
+  have e : pre ++ Op.recv env line faults :: post = (pre ++ [Op.recv env line faults]) ++ post := by simp
+  rw [e, stateAfter_append]
+  refine absent_if_never_set _ post k ?_ hpost
+  show storedValue (stateAfter st (pre ++ [Op.recv env line faults])).abs.nodes k = none
+  rw [abs_after_recv st pre env line faults m hd]
+  exact presentation_clears_value _ m k hcmd hn hc
+
+/-! ### Non-vacuity of the attribute theorems (closed terms of the specification) -/
+
+theorem round_example : pyRoundFloat "49.6".toList = .ok 50 := by rfl
+
+example : Spec.batteryLevel? "49.6".toList = some 50 ∧ Spec.batteryLevel? "101".toList = none ∧
+    Spec.batteryLevel? "x".toList = none := by decide
+
+example : specRun {} (exPre ++ [.recv {} "7;255;3;0;0;49.6\n".toList [.fail], .recv {} "7;255;3;0;11;Relay\n".toList [],
+      .recv {} "7;255;3;0;12;1.1\n".toList [], .recv {} "7;255;3;0;0;101\n".toList []]) =
+    ⟨.v14, [(7, { exNode [] with battery := 50, sketchName := "Relay".toList, sketchVersion := "1.1".toList })]⟩ := by
+  decide
+
+/-- A 2.2 gateway, node 7, a heartbeat response; a non-integer payload is ignored. -/
+def exPre22 : List Op :=
+  [.recv {} "0;255;0;0;18;2.2.0\n".toList [], .recv {} "7;255;0;0;17;2.2.0\n".toList [.cancel]]
+
+example : specRun {} (exPre22 ++ [.recv {} "7;255;3;0;22;1234\n".toList [], .recv {} "7;255;3;0;22;12.5\n".toList []]) =
+    ⟨.v22, [(0, { ntype := 18, pv := "2.2.0".toList }), (7, { ntype := 17, pv := "2.2.0".toList, heartbeat := 1234 })]⟩ := by
+  decide
+
+example : AttrDisturbs 7 0 ⟨7, 255, 3, 0, 0, ['1']⟩ ∧ AttrDisturbs 7 0 ⟨7, 255, 0, 0, 17, []⟩ ∧
+    ¬ AttrDisturbs 7 0 ⟨7, 255, 3, 0, 11, ['1']⟩ ∧ ¬ AttrDisturbs 7 0 ⟨7, 4, 0, 0, 6, []⟩ ∧
+    ¬ AttrDisturbs 7 0 ⟨8, 255, 3, 0, 0, ['1']⟩ ∧ SetsKey (7, 4, 0) ⟨7, 4, 1, 0, 0, ['1']⟩ ∧
+    ¬ SetsKey (7, 4, 0) ⟨7, 4, 1, 0, 1, ['1']⟩ := by
+  simp [AttrDisturbs, SetsKey, Msg.key, Gen.cmdSet, Gen.cmdInternal, Gen.cmdPresentation, Gen.systemChildId]
+
+section
+attribute [local irreducible] stateAfter
+
+/-- The hypotheses of `battery_is_last_report` on a concrete history (failing writes, a send and
+foreign traffic after the report; the model's history is never evaluated). -/
+example : nodeAttr (stateAfter {} (exPre ++ .recv {} "7;255;3;0;0;49.6\n".toList [.fail] ::
+      [.send (some ⟨7, 4, 1, 0, 0, ['9']⟩) true [.fail], .recv {} "8;255;0;0;17;2.0\n".toList [.fail]])).nodes 7 Node.battery
+    = some 50 := by
+  have hpre : (stateAfter {} exPre).abs = ⟨.v14, [(7, exNode [])]⟩ := by rw [history_refines_spec]; decide
+  refine battery_is_last_report {} exPre _ {} _ [.fail] ⟨7, 255, 3, 0, 0, "49.6".toList⟩ 50 ?_ rfl rfl ?_ round_example
+    (by decide) ?_
+  · rw [← abs_proto, hpre]; decide
+  · refine ⟨exNode [], ?_⟩
+    rw [← abs_nodes, hpre]; decide
+  · refine quiet_of_notFrom _ 7 (fun _ h => h.1) _ (fun op hop => ?_) _
+    simp only [List.mem_cons, List.not_mem_nil, or_false] at hop
+    rcases hop with rfl | rfl
+    · trivial
+    · exact notFrom_example
+
+/-- … and of `heartbeat_is_last_report` (protocol 2.2 after the gateway's presentation). -/
+example : nodeAttr (stateAfter {} (exPre22 ++ .recv {} "7;255;3;0;22;1234\n".toList [] ::
+      [.recv {} "8;255;0;0;17;2.0\n".toList [.fail]])).nodes 7 Node.heartbeat = some 1234 := by
+  have hpre : (stateAfter {} exPre22).abs =
+      ⟨.v22, [(0, { ntype := 18, pv := "2.2.0".toList }), (7, { ntype := 17, pv := "2.2.0".toList })]⟩ := by
+    rw [history_refines_spec]; decide
+  refine heartbeat_is_last_report {} exPre22 _ {} _ [] ⟨7, 255, 3, 0, 22, "1234".toList⟩ 1234 ?_ rfl rfl ?_ ?_
+    (by decide) ?_
+  · rw [← abs_proto, hpre]; decide
+  · rw [← abs_proto, hpre]; decide
+  · refine ⟨{ ntype := 17, pv := "2.2.0".toList }, ?_⟩
+    rw [← abs_nodes, hpre]; decide
+  · refine quiet_of_notFrom _ 7 (fun _ h => h.1) _ (fun op hop => ?_) _
+    simp only [List.mem_cons, List.not_mem_nil, or_false] at hop
+    subst hop
+    exact notFrom_example
+
+/-- `absent_if_never_set_from_empty`: node 7 and child 4 are presented, node 8 talks, nobody sets (7, 4, 0). -/
+example : storedValue (stateAfter {} (exPre ++ [.recv {} "8;255;0;0;17;2.0\n".toList [.fail]])).nodes (7, 4, 0) = none := by
+  refine absent_if_never_set_from_empty _ _ fun op hop => ?_
+  simp only [exPre, List.cons_append, List.nil_append, List.mem_cons, List.not_mem_nil, or_false] at hop
+  rcases hop with rfl | rfl | rfl | rfl
+  · intro v m' h
+    have : decode v "7;255;0;0;17;2.0\n".toList = some ⟨7, 255, 0, 0, 17, "2.0".toList⟩ := by cases v <;> decide
+    rw [this] at h; cases h; simp [SetsKey, Gen.cmdSet]
+  · trivial
+  · intro v m' h
+    have : decode v "7;4;0;0;6;temp\n".toList = some ⟨7, 4, 0, 0, 6, "temp".toList⟩ := by cases v <;> decide
+    rw [this] at h; cases h; simp [SetsKey, Gen.cmdSet]
+  · intro v m' h
+    have : decode v "8;255;0;0;17;2.0\n".toList = some ⟨8, 255, 0, 0, 17, "2.0".toList⟩ := by cases v <;> decide
+    rw [this] at h; cases h; simp [SetsKey, Gen.cmdSet]
 end
 
 end AioMySensors.C04
